@@ -171,7 +171,8 @@ Definition low_threshold (c : cfg) : Z :=
     - [a_pend]    committed, not yet synced application transactions of the
                   live generation, oldest first, each as its number of frames
     - [a_file]    frame slots physically present in the -wal file (stale frames
-                  of older generations stay behind a PASSIVE restart)
+                  of older generations stay behind a PASSIVE restart; frames a
+                  rolled-back transaction spilled stay behind the committed end)
     - [a_fl]      truncatePassiveFailed, syncedSinceCheckpoint
     - [a_off]     lastSyncedWALOffset (0 in a fresh process)
     - [a_toend]   syncedToWALEnd
@@ -302,12 +303,19 @@ Section Machine.
   (** steps of a history *)
   Inductive step :=
   | Commit (k : Z)                (* the application commits one transaction of k >= 1 frames *)
+  | Spill (k : Z)                 (* a write transaction spilled k frames past the committed end of the
+                                     WAL (valid salts and checksums, no commit record) and was rolled
+                                     back - or is committed by a later [Commit] that counts them.
+                                     Frames are seen by the policy only through the file length. *)
   | Sync (el : nat -> bool)       (* litestream Sync *)
   | ProcRestart.                  (* litestream process restarts: syncState is zeroed *)
 
   Definition app_commit (k : Z) (s : ast) : ast :=
     let live := live_frames s + k in
     mkAst (a_synced s) (a_pend s ++ [k]) (Z.max (a_file s) live) (a_fl s) (a_off s) (a_toend s) (a_first s).
+
+  Definition app_spill (k : Z) (s : ast) : ast :=
+    mkAst (a_synced s) (a_pend s) (Z.max (a_file s) (live_frames s + k)) (a_fl s) (a_off s) (a_toend s) (a_first s).
 
   Definition proc_restart (s : ast) : ast :=
     mkAst (a_synced s) (a_pend s) (a_file s) (mkFlags false false) 0 false (a_first s).
@@ -316,6 +324,7 @@ Section Machine.
   Definition do_step (st : step) (s : ast) : option (ast * Z) :=
     match st with
     | Commit k => Some (app_commit k s, 0)
+    | Spill k => Some (app_spill k s, 0)
     | Sync el => match sync el s with Some (s', nf, _) => Some (s', nf) | None => None end
     | ProcRestart => Some (proc_restart s, 0)
     end.
